@@ -25,10 +25,10 @@ P = {
             "Fixture archives, API-generated archives and synthetic archives (around the 64 KiB boundaries, with merge patches, with every header size across the varint boundaries) are decoded/encoded by the library and compared byte-for-byte (uncompressed stream) with an independent codec; re-chunkings must decode identically.",
             "python-snappy and protobuf are trusted; stored chunks that are themselves valid snappy are ambiguous in the format and excluded."),
     "C06": ("metamorphic PBT over meaning-preserving file rewrites", "4 C06",
-            "Files are rewritten (list permutation, re-chunking, member order/compression, package form, offset width, explicit empty-row header records, row records of empty rows removed) with an independent codec and must read as the same snapshot.",
+            "Files are rewritten (list permutation, re-chunking, member order/compression, package form, offset width, explicit empty-row header records, row records of empty rows removed or added, row records shuffled) with an independent codec and must read as the same snapshot.",
             "Lookup lists are maps (the property's premise)."),
     "C07": ("validity-predicate PBT with an independent package validator", "4 C07",
-            "Every package saved after generated histories is decoded independently and checked for referential closure, id uniqueness/high-water mark, metadata inventory and tile/row/offset geometry (a tile's numrows equals its number of row records).",
+            "Every package saved after generated histories (also from documents whose tile archives are folded into one) is decoded independently and checked for referential closure, id uniqueness/high-water mark, metadata inventory and tile/row/offset geometry (a tile's numrows equals its number of row records).",
             "Apple Numbers itself is unavailable; the predicate is the property's own list."),
     "C08": ("grammar-based program generation + independent infix parser (round-trip on trees)", "4 C08",
             "Expression trees are serialised to Numbers' post-fix node arrays, stored, re-read through Cell.formula and parsed by an independent precedence-climbing parser; trees must be equal.",
